@@ -377,6 +377,167 @@ class UserBaseError(BaseException):
     pass
 
 
+def replay_exitstack(payload):
+    """C14: the scenario's history of registrations / unwinding on asyncstdlib.ExitStack and on the real
+    contextlib.AsyncExitStack, with scripted context managers and exit callables"""
+    import contextlib
+    import asyncstdlib
+    scen = payload["scenario"]
+    trace = scen.get("trace") or []
+    ops = [ans for ev, ans in trace if ev == "op"]
+    cm_answers = {}
+    fn_answers = {}
+    for ev, ans in trace:
+        m = re.match(r"(cm\d+)\.(enter|exit)\(", ev)
+        if m:
+            cm_answers.setdefault((m.group(1), m.group(2)), []).append(ans)
+        m = re.match(r"call (exit\d+|cb\d+)\(", ev)
+        if m:
+            fn_answers.setdefault(m.group(1), []).append(ans)
+
+    class Block(BaseException):
+        pass
+
+    def run(kind):
+        log = []
+        excs = {}
+
+        def exc_for(tag, cls=UserError):
+            if tag not in excs:
+                excs[tag] = cls(tag)
+            return excs[tag]
+
+        def name_of(e):
+            if e is None:
+                return None
+            for t, x in excs.items():
+                if x is e:
+                    return t
+            return type(e).__name__
+
+        def answer(q, default):
+            lst = q
+            return lst.pop(0) if lst else default
+
+        answers_cm = {k: list(v) for k, v in cm_answers.items()}
+        answers_fn = {k: list(v) for k, v in fn_answers.items()}
+
+        def do_enter(nm):
+            a = answer(answers_cm.get((nm, "enter"), []), "ret v")
+            log.append((nm, "enter"))
+            if a.startswith("raise"):
+                raise exc_for(nm + ".enter")
+            return nm + "-value"
+
+        def do_exit(nm, et, ev, tb):
+            a = answer(answers_cm.get((nm, "exit"), []), "falsy")
+            log.append((nm, "exit", name_of(ev)))
+            if a == "raise":
+                raise exc_for(nm + ".exit")
+            if a == "cancel":
+                raise exc_for(nm + ".exit-cancel", Cancelled)
+            return a == "truthy"
+
+        class ACM:
+            def __init__(s, nm):
+                s.nm = nm
+
+            async def __aenter__(s):
+                return do_enter(s.nm)
+
+            async def __aexit__(s, et, ev, tb):
+                return do_exit(s.nm, et, ev, tb)
+
+        class SCM:
+            def __init__(s, nm):
+                s.nm = nm
+
+            def __enter__(s):
+                return do_enter(s.nm)
+
+            def __exit__(s, et, ev, tb):
+                return do_exit(s.nm, et, ev, tb)
+
+        def exit_fn(nm):
+            def f(et, ev, tb):
+                a = answer(answers_fn.get(nm, []), "ret x")
+                log.append((nm, "called", name_of(ev)))
+                if a.startswith("raise"):
+                    raise exc_for(nm + ".raise")
+                return False
+            return f
+
+        def cb_fn(nm):
+            def f(arg):
+                a = answer(answers_fn.get(nm, []), "ret x")
+                log.append((nm, "callback", arg))
+                if a.startswith("raise"):
+                    raise exc_for(nm + ".raise")
+                return True
+            return f
+
+        async def main():
+            S = asyncstdlib.ExitStack() if kind == "impl" else contextlib.AsyncExitStack()
+            T = None
+            k = 0
+            out = []
+            for op in ops:
+                try:
+                    if op == "registered":
+                        out.append((op, "ok"))
+                        continue
+                    if op.startswith("enter:") or op.startswith("push:") or op == "callback":
+                        k += 1
+                    if op == "enter:acm":
+                        cm = ACM(f"cm{k}")
+                        r = await (S.enter_context(cm) if kind == "impl" else S.enter_async_context(cm))
+                    elif op == "enter:scm":
+                        cm = SCM(f"cm{k}")
+                        r = (await S.enter_context(cm)) if kind == "impl" else S.enter_context(cm)
+                    elif op == "push:acm":
+                        cm = ACM(f"cm{k}")
+                        r = S.push(cm) if kind == "impl" else S.push_async_exit(cm)
+                        r = None
+                    elif op == "push:scm":
+                        r = S.push(SCM(f"cm{k}"))
+                        r = None
+                    elif op == "push:fn":
+                        S.push(exit_fn(f"exit{k}"))
+                        r = None
+                    elif op == "callback":
+                        S.callback(cb_fn(f"cb{k}"), f"arg{k}")
+                        r = None
+                    elif op == "pop_all":
+                        T = S.pop_all()
+                        r = None
+                    elif op == "aclose":
+                        await S.aclose()
+                        r = None
+                    else:
+                        target = T if op.startswith("leaveT") else S
+                        if op.endswith("none"):
+                            r = bool(await target.__aexit__(None, None, None))
+                        else:
+                            e = exc_for("block", Block)
+                            r = bool(await target.__aexit__(type(e), e, None))
+                    out.append((op, "ok", r))
+                except BaseException as e:
+                    out.append((op, "raise", name_of(e)))
+            return out
+        return asyncio.run(main()), log
+    a, alog = run("impl")
+    b, blog = run("ref")
+    diffs = []
+    if a != b:
+        for i, (x, y) in enumerate(zip(a, b)):
+            if x != y:
+                diffs.append(f"operation {i} {x[0]}: asyncstdlib.ExitStack {x[1:]} vs contextlib.AsyncExitStack {y[1:]}")
+                break
+    if alog != blog:
+        diffs.append(f"exit calls differ: asyncstdlib {alog} vs contextlib {blog}")
+    return {"confirmed": bool(diffs), "differences": diffs[:3], "operations": ops}
+
+
 def replay_contextmanager(payload):
     """C13: build a REAL async generator function that answers anext/athrow/aclose as the scenario says, run
     asyncstdlib.contextmanager and contextlib.asynccontextmanager around it for the scenario's block outcome"""
@@ -513,6 +674,8 @@ def replay_scenario(payload):
     rk = {k: build_arg(rr, v) for k, v in payload["args"].get("rkw", {}).items()}
     if kind == "protocol" and payload["job"].startswith("contextmanager["):
         return replay_contextmanager(payload)
+    if kind == "protocol" and payload["job"].startswith("ExitStack["):
+        return replay_exitstack(payload)
     if kind == "protocol":
         proto = PROTOCOLS.get(payload["job"].split("[")[0])
         if proto is None:
